@@ -30,7 +30,7 @@ static inline uint64_t bits_mask(int bits) { return bits >= 64 ? ~0ull : ((1ull 
 static int lanes_of(Kind k) { return k == KX ? 2 : k == KY ? 4 : k == KZ ? 8 : 1; }
 
 #define C05_OPS(X) \
-  X(MOV) X(MOV32) X(MOVI) X(ADD) X(SUB) X(XOR) X(AND) X(OR) X(ADD32) X(SUB32) X(XOR32) X(AND32) X(OR32) \
+  X(MOV) X(MOV32) X(MOVI) X(ADD) X(SUB) X(XOR) X(AND) X(OR) X(ADD32) X(ADDW) X(SUB32) X(XOR32) X(AND32) X(OR32) \
   X(ADDI) X(SUBI) X(XORI) X(ANDI) X(ORI) X(ADDI32) X(XORI32) X(ANDI32) X(ORI32) \
   X(LEA) X(SHL) X(SHR) X(SAR) X(SHL32) X(SHLI) X(SHRI) X(SARI) X(ROLI) X(RORI) X(SHLI32) \
   X(IMUL2) X(IMUL3) X(MUL) X(IMUL1) X(CQO) X(IDIV) X(CDQ) X(IDIV32) X(CMPXCHG) X(CMPXCHGM) \
@@ -244,6 +244,7 @@ static void interp(const Prog& p, const Input& in, uint64_t mem_ptr, Outcome& ou
       case O_AND: A[0] &= b; break;
       case O_OR: A[0] |= b; break;
       case O_ADD32: A[0] = m32(A[0] + b); break;
+      case O_ADDW: A[0] += b; break;   // 64-bit add whose source is the 64-bit view of a (zero extended) 32-bit virtual register
       case O_SUB32: A[0] = m32(A[0] - b); break;
       case O_XOR32: A[0] = m32(A[0] ^ b); break;
       case O_AND32: A[0] = m32(A[0] & b); break;
@@ -416,6 +417,7 @@ struct EmitX86 {
   // operand views of an "equalized" operation: 32-bit views as soon as one operand is a 32-bit virtual register
   bool any32(const Ins& I) const { for (int x : {I.a, I.b, I.c}) if (x >= 0 && is_gp_kind(p.kinds[size_t(x)]) && gp_bits(p.kinds[size_t(x)]) == 32) return true; return false; }
   x86::Gp Q(int v, bool m32) { return m32 ? g[size_t(v)].r32() : g[size_t(v)]; }
+  bool has_addw = false;   // the program reads 64-bit views of 32-bit virtual registers
 
   void build() {
     is32 = cc.arch() == Arch::kX86;
@@ -450,6 +452,9 @@ struct EmitX86 {
       }
     }
     for (int i = 0; i < p.nargs; i++) if (p.arg_val[size_t(i)] >= 0) fn->set_arg(size_t(i), g[size_t(p.arg_val[size_t(i)])]);
+    // a UInt32 argument arrives with an unspecified upper half: programs that read 64-bit views of 32-bit values (ADDW) normalise it first
+    { for (const Ins& q : p.code) if (q.op == O_ADDW) has_addw = true;
+      if (has_addw) for (int i = 0; i < p.nargs; i++) { int vi = p.arg_val[size_t(i)]; if (vi >= 0 && is_gp_kind(p.kinds[size_t(vi)]) && gp_bits(p.kinds[size_t(vi)]) == 32) E(cc.or_(g[size_t(vi)].r32(), 0)); } }
     for (int i = 0; i < p.nlabels; i++) labels.push_back(cc.new_label());
     if (p.nstk) stk = cc.new_stack(std::max<uint32_t>(uint32_t(p.nstk) * 8, uint32_t(p.stk_align)), uint32_t(p.stk_align));
     for (size_t k = 0; k < p.code.size(); k++) { cur = int(k); ins(p.code[k]); }
@@ -471,6 +476,7 @@ struct EmitX86 {
       case O_AND: { bool m = any32(I); E(cc.and_(Q(a, m), Q(b, m))); break; }
       case O_OR: { bool m = any32(I); E(cc.or_(Q(a, m), Q(b, m))); break; }
       case O_ADD32: E(cc.add(G(a).r32(), G(b).r32())); break;
+      case O_ADDW: E(cc.add(G(a).r64(), G(b).r64())); break;
       case O_SUB32: E(cc.sub(G(a).r32(), G(b).r32())); break;
       case O_XOR32: E(cc.xor_(G(a).r32(), G(b).r32())); break;
       case O_AND32: E(cc.and_(G(a).r32(), G(b).r32())); break;
@@ -629,6 +635,8 @@ struct EmitX86 {
         if (!inv) break;
         for (size_t k = 0; k < I.args.size(); k++) { if (I.args[k] == -999) inv->set_arg(k, Imm(I.imm)); else if (I.args[k] <= -1000) inv->set_arg(k, Imm(int64_t(-1000 - I.args[k]))); else inv->set_arg(k, G(I.args[k])); }
         if (a >= 0) inv->set_ret(0, G(a));
+        // the upper half of a returned value bound to a 32-bit virtual register is unspecified: normalise it where 64-bit views are read (ADDW)
+        if (a >= 0 && has_addw && is_gp_kind(p.kinds[size_t(a)]) && gp_bits(p.kinds[size_t(a)]) == 32) E(cc.or_(G(a).r32(), 0));
         break;
       }
       case O_RET: E(cc.ret(G(a))); break;
@@ -1134,6 +1142,9 @@ static const Alpha kAlpha[] = {
   {"and", 0, 2, "gg", 0, GEN { UNUSED; b.I(O_AND, x, y); }},
   {"or", 0, 2, "gg", 0, GEN { UNUSED; b.I(O_OR, x, y); }},
   {"add32", 0, 2, "gg", NEED_64, GEN { UNUSED; b.I(O_ADD32, x, y); }},
+  // mixed mode only: a 64-bit destination reads the 64-bit view of a 32-bit virtual register (its upper half is zero: every write to it is a
+  // 32-bit write and 32-bit arguments are normalised at function entry, see build()); a spilled source must not be read 8 bytes wide from its 4-byte slot
+  {"addw", 0, 2, "gg", NEED_64 | NEED_NATIVE, GEN { UNUSED; if (gp_bits(b.p.kinds[size_t(x)]) != 64 || gp_bits(b.p.kinds[size_t(y)]) != 32) { b.ok = false; return; } b.I(O_ADDW, x, y); }},
   {"sub32", 0, 2, "gg", NEED_64, GEN { UNUSED; b.I(O_SUB32, x, y); }},
   {"xor32", 0, 2, "gg", NEED_64, GEN { UNUSED; b.I(O_XOR32, x, y); }},
   {"and32", 0, 2, "gg", NEED_64, GEN { UNUSED; b.I(O_AND32, x, y); }},
@@ -1311,9 +1322,10 @@ static bool alpha_applicable(const Alpha& al, int pat, const Desc& d) {
   if ((al.need & NEED_XMM_ONLY) && d.vm != 1) return false;
   if ((al.need & NEED_NATIVE) && d.arch != 0) return false;          // constant-pool operands are label-relative: outside the simulator
   if ((al.need & NEED_64) && d.vm == 5) return false;                // 64-bit-only forms in the 32-bit value mode
+  if (!strcmp(al.name, "addw") && d.vm != 6) return false;
   if (d.vm == 6) {                                                   // mixed 64/32-bit values: operations whose operands are taken at one width (or whose width is that of the destination alone)
     static const char* const ok[] = {"mov", "add", "sub", "xor", "and", "or", "imul2", "imul3", "xchg", "lea-b", "lea-bis", "lea-bi", "mul", "imul1", "shl-cl", "shr-cl", "sar-cl", "movzx8", "movzx16", "mov8", "mov16",
-                                     "movi0", "addi", "add-0", "xor-m1", "and-ff", "shl-1", "shr-13", "rol-7", "inc", "dec", "neg", "not", "movi8"};
+                                     "addw", "movi0", "addi", "add-0", "xor-m1", "and-ff", "shl-1", "shr-13", "rol-7", "inc", "dec", "neg", "not", "movi8"};
     bool found = false; for (const char* n : ok) if (!strcmp(n, al.name)) found = true;
     if (!found) return false;
   }
